@@ -93,6 +93,12 @@ CATALOGUE = [
     ("ttc-save-opens-first", "ttLib/ttCollection.py", "        final = file\n        file = BytesIO()\n\n        tableCache", "        final = file\n        file = BytesIO() if hasattr(file, \"write\") else open(file, \"wb\")\n\n        tableCache", "C20", "TTCSave", "alarm"),
     ("composite-transform-refactor", "ttLib/tables/_g_l_y_f.py", "            px = x * t[0][0] + y * t[1][0]\n            py = x * t[0][1] + y * t[1][1]", "            (xx, xy), (yx, yy) = t\n            px = x * xx + y * yx\n            py = x * xy + y * yy", "C05", "CompositeCoordinates", "green"),
     ("coverage-format-choice-refactor", "ttLib/tables/otTables.py", "            if brokenOrder or len(ranges) * 3 < len(glyphs):  # 3 words vs. 1 word", "            useRanges = brokenOrder or len(ranges) * 3 < len(glyphs)\n            if useRanges:  # 3 words vs. 1 word", "C06", "CoveragePreWrite", "green"),
+    ("reverse-offcurves-not-reversed", "pens/reverseContourPen.py", "            yield curType, tuple(reversed(curPts[:-1])) + (nextPts[-1],)", "            yield curType, tuple(curPts[:-1]) + (nextPts[-1],)", "C14", "ReversedContour", "alarm"),
+    ("reverse-duplicate-point-dropped", "pens/reverseContourPen.py", "                if secondType == \"lineTo\" and firstPts != secondPts:", "                if secondType == \"lineTo\":", "C14", "ReversedContour", "green"),
+    ("context-f1-coverage-not-remapped", "subset/__init__.py", "        indices = [i for i, rs in enumerate(rss) if rs and getattr(rs, c.Rule)]\n        self.Coverage.remap(indices)", "        indices = [i for i, rs in enumerate(rss) if rs and getattr(rs, c.Rule)]", "C07", "ContextFormat1Subset", "alarm"),
+    ("revchain-coverage-not-remapped", "subset/__init__.py", "        self.Substitute = _list_subset(self.Substitute, indices)\n        self.Coverage.remap(indices)", "        self.Substitute = _list_subset(self.Substitute, indices)", "C07", "ReverseChainSingleSubstSubset", "alarm"),
+    ("merge-curves-handle-flipped", "qu2cu/qu2cu.py", "    p2 = p3 + (p2 - p3) / ((1 - ts[-1]) if ts else 1)", "    p2 = p3 - (p2 - p3) / ((1 - ts[-1]) if ts else 1)", "C13", "MergeCurves", "alarm"),
+    ("elevate-wrong-third", "qu2cu/qu2cu.py", "        (p2 * (1 / 3) + p1_2_3),", "        (p2 * (2 / 3) + p1_2_3),", "C13", "ElevateQuadratic", "alarm"),
 ]
 
 
